@@ -239,7 +239,19 @@ class ImplWorld:
             elif kind == "clear":
                 n.clear_meta(op.get("k"))
             elif kind == "update":
-                n.update_meta({k_: json.loads(v) for k_, v in op["vals"]}, replace=op.get("replace", False))
+                vals = {k_: json.loads(v) for k_, v in op["vals"]}
+                if op.get("shared") is not None:
+                    # the caller re-uses one dict object for several calls (and edits it in between)
+                    if not hasattr(self, "shared_meta"):
+                        self.shared_meta = {}
+                    d = self.shared_meta.setdefault(op["shared"], {})
+                    d.clear()
+                    d.update(vals)
+                    n.update_meta(d, replace=op.get("replace", False))
+                    if d != vals:
+                        raise AssertionError("update_meta changed the caller's dict")
+                else:
+                    n.update_meta(vals, replace=op.get("replace", False))
         else:
             raise AssertionError(k)
 
